@@ -43,14 +43,28 @@ type World struct {
 	NEdges int
 
 	funcsCache map[*ssa.Package][]*ssa.Function
+
+	Notes []string // things the reader of a report should know about how the program was loaded
 }
 
-func loadModule(dir string, fset *token.FileSet, patterns ...string) ([]*packages.Package, error) {
+func firstLine(s string) string {
+	s = strings.TrimSpace(s)
+	if i := strings.Index(s, "\n"); i >= 0 {
+		s = s[:i]
+	}
+	if len(s) > 300 {
+		s = s[:300] + "…"
+	}
+	return s
+}
+
+func loadModule(dir string, fset *token.FileSet, overlay map[string][]byte, patterns ...string) ([]*packages.Package, error) {
 	cfg := &packages.Config{
-		Mode:  packages.LoadAllSyntax,
-		Dir:   dir,
-		Fset:  fset,
-		Tests: false,
+		Mode:    packages.LoadAllSyntax,
+		Dir:     dir,
+		Fset:    fset,
+		Tests:   false,
+		Overlay: overlay,
 		Env: append(os.Environ(), "GOFLAGS=-mod=mod", "GOPROXY=off", "GOSUMDB=off", "GOTOOLCHAIN=local", "GOWORK=off",
 			"GOOS=linux", "GOARCH=amd64", "CGO_ENABLED=0"),
 	}
@@ -87,7 +101,15 @@ func loadWorld(repo string, needs int) (*World, error) {
 	}
 	w := &World{Repo: abs, Fset: token.NewFileSet(), Pkgs: map[string]*packages.Package{}, SSA: map[string]*ssa.Package{},
 		ToolPkgs: map[string]*packages.Package{}, ToolSSA: map[string]*ssa.Package{}, funcsCache: map[*ssa.Package][]*ssa.Function{}}
-	roots, err := loadModule(abs, w.Fset, "./tars/...")
+	newKeys := newFuncKeys(abs)
+	overlay, notes := buildOverlay(abs, abs, newKeys, "./tars/...")
+	w.Notes = append(w.Notes, notes...)
+	roots, err := loadModule(abs, w.Fset, overlay, "./tars/...")
+	if err != nil && overlay != nil {
+		w.Notes = append(w.Notes, "helper normalisation abandoned (the expanded source does not type-check: "+firstLine(err.Error())+"); analysing the source as written")
+		w.Fset = token.NewFileSet()
+		roots, err = loadModule(abs, w.Fset, nil, "./tars/...")
+	}
 	if err != nil {
 		return nil, err
 	}
@@ -117,7 +139,14 @@ func loadWorld(repo string, needs int) (*World, error) {
 		return nil, fmt.Errorf("cannot-analyse: only %d packages under ./tars/... (expected ≥ 30)", len(roots))
 	}
 	if needs&NeedTool != 0 {
-		troots, err := loadModule(filepath.Join(abs, "tars/tools/tars2go"), w.Fset, "./...")
+		tdir := filepath.Join(abs, "tars/tools/tars2go")
+		toverlay, tnotes := buildOverlay(tdir, abs, newKeys, "./...")
+		w.Notes = append(w.Notes, tnotes...)
+		troots, err := loadModule(tdir, w.Fset, toverlay, "./...")
+		if err != nil && toverlay != nil {
+			w.Notes = append(w.Notes, "helper normalisation abandoned for tars2go ("+firstLine(err.Error())+")")
+			troots, err = loadModule(tdir, w.Fset, nil, "./...")
+		}
 		if err != nil {
 			return nil, err
 		}
